@@ -101,11 +101,11 @@ ASSUMPTIONS = [
     "excluded by construction behind module flags and counted (excluded:*)",
 ]
 
-EXCLUDE_D10 = True
-EXCLUDE_D11 = True
-EXCLUDE_EMPTY_DELETE = True
-EXCLUDE_EMPTY_ADD = True
-EXCLUDE_REPLACEMENT_NOOP = True
+EXCLUDE_D10 = False
+EXCLUDE_D11 = False
+EXCLUDE_EMPTY_DELETE = False
+EXCLUDE_EMPTY_ADD = False
+EXCLUDE_REPLACEMENT_NOOP = False
 
 ORIGIN_LABELS = (b"example", b"")
 ORIGIN_KEY = W.name_key(ORIGIN_LABELS)
@@ -381,7 +381,7 @@ def _model_op(mt, op, keyof):
                 mt.delete_rdatas(owner, rdtype, covers, _listed_keys(op, keyof), rdclass=rdclass, exact=exact)
             return ("ok", None)
         if name == "update_serial":
-            mt.update_serial(op["value"], op["relative"], effective_spelling=not op.get("soa_other"))
+            mt.update_serial(op["value"], op["relative"], effective_spelling=True)
             return ("ok", None)
         if name == "get":
             rdtype, covers = _tk(op)
@@ -487,9 +487,9 @@ def _real_call(Z, txn, op):
             args.append(_extra_rdata())
         fn = getattr(txn, name)
     elif name == "update_serial":
-        spell = Z.effective_spell(op["spell"], op.get("soa_other"))
+        spell = Z.effective_spell(op["spell"], False)
         kw = {}
-        if not (spell == 0 and op["defaults"]):
+        if not op["defaults"]:
             kw["name"] = Z.name(0, spell, False)
         args = []
         if not (op["defaults"] and op["value"] == 1 and op["relative"]):
@@ -697,8 +697,8 @@ def run(case):
             op["src"] = src
             name = op["op"]
             if name in ("add", "replace") and not op["recs"]:
-                if name == "replace" or op["form"] == "rrset":
-                    continue  # replace-by-nothing is unspecified; an empty RRset cannot be converted
+                if op["form"] == "rrset":
+                    continue  # an empty RRset cannot even be converted to an rdataset
                 if EXCLUDE_EMPTY_ADD:
                     if count:
                         classes.add("excluded:empty-add")
@@ -911,7 +911,8 @@ def run(case):
             Z.check_published(after, where)
             now = Z.ids()
             if ids is not None:
-                if commit and changed:
+                if commit and (changed or t["replacement"]):
+                    # (a replacement transaction replaces the content even when it wrote nothing)
                     if not now or now[-1] != ids[-1] + 1:
                         raise Violation("conformance", f"{Z.label} {where}: version ids {ids} -> {now} after an effective commit", f"{Z.kind}:ids-commit")
                 elif now != ids:
@@ -1025,8 +1026,9 @@ def _op(draw, types, prev):
         if not op["relative"]:
             op["value"] = draw(st.sampled_from([0, 1, 5, 2**31, 2**32 - 1, 2024010102, -1]))
         op["defaults"] = draw(st.booleans())
-        if rare == 0:
-            op["soa_other"] = True
+        # (no "other spelling" for update_serial: since the D49 repair the default/empty name
+        # means "the origin" in every zone flavour, so the outcome no longer is the same
+        # ValueError in relativized and absolute zones; SOA add/replace still cover it)
         return op
     if kind in ("iterate_names", "iterate_rdatasets", "changed"):
         return op
@@ -1049,6 +1051,11 @@ def _op(draw, types, prev):
         return op
     if echo and echo[1] == tname and echo[2] and draw(st.sampled_from([True, True, False])):
         op["recs"] = list(echo[2])
+        if kind in ("delete", "delete_exact") and draw(st.sampled_from([False, False, True])):
+            # partial overlap with what an earlier operation stored: one more / one other record
+            extra = [i for i in range(3) if i not in op["recs"]]
+            if extra:
+                op["recs"] = op["recs"] + extra[:1]
     else:
         nrec = draw(st.sampled_from([1, 1, 1, 2, 3]))
         op["recs"] = draw(st.lists(st.integers(0, 2), min_size=nrec, max_size=nrec))
@@ -1139,7 +1146,6 @@ def parts(tier):
         "outcome:ValueError": 80,
         "outcome:KeyError": 100,
         "outcome:TypeError": 30,
-        "soa-other-spelling": 10,
         "delete-form:rrset": 100,
         "delete-form:type": 100,
         "delete-form:type_covers": 100,
@@ -1156,8 +1162,6 @@ def parts(tier):
         "veto-fired": 400,
         "crash-points>=10": 300,
         "replacement": 80,
-        "excluded:D10": 80,
-        "excluded:D11": 1000,
         "__nontrivial__": 400,
     }
     return [
